@@ -394,20 +394,43 @@ fn with_body(p: &Program, body: &[Instruction]) -> Program {
 //   771  -> a number with the smallest positive subnormal imaginary part
 //   772  -> imaginary part exactly f64::EPSILON (accepted), 773 -> next float above EPSILON (rejected)
 //   -(774) at a prefix -> unary PLUS applied to 774
+/// numbers only constructible through the AST (the parser yields `-2i` as a prefix expression and
+/// `1-2i` as an infix one, never a literal with a negative / NaN / infinite imaginary part):
+/// every sign and size class of the imaginary part.  The rule of should_be_real is on |im|.
+fn marker_number(re: f64) -> Option<(f64, f64)> {
+    let eps = f64::EPSILON;
+    let above = f64::from_bits(eps.to_bits() + 1);
+    Some(match re as i64 {
+        _ if re.fract() != 0.0 => return None,
+        770 => (1.0, f64::NAN),
+        771 => (1.0, f64::from_bits(1)),
+        772 => (0.0, -eps),
+        773 => (0.0, above),
+        775 => (1.0, -1.0),
+        776 => (0.0, -2.5),
+        777 => (3.0, -1e300),
+        778 => (0.0, -3e-16),
+        779 => (1.0, -2.3e-16),
+        780 => (0.0, -above),
+        781 => (1.0, -2.2e-16),
+        782 => (0.0, -1e-17),
+        783 => (1.0, -0.0),
+        784 => (1.0, f64::INFINITY),
+        785 => (0.0, f64::NEG_INFINITY),
+        786 => (2.0, 1e300),
+        787 => (1.0, eps),
+        788 => (-1.0, -f64::from_bits(1)),
+        789 => (f64::NAN, 0.0),
+        790 => (f64::INFINITY, -1.0),
+        _ => return None,
+    })
+}
 fn exotic_expr(e: &Expression) -> Expression {
     match e {
-        Expression::Number(c) if c.im == 0.0 && c.re == 770.0 => {
-            Expression::Number(num_complex::Complex64::new(1.0, f64::NAN))
+        Expression::Number(c) if c.im == 0.0 && marker_number(c.re).is_some() => {
+            let (re, im) = marker_number(c.re).unwrap();
+            Expression::Number(num_complex::Complex64::new(re, im))
         }
-        Expression::Number(c) if c.im == 0.0 && c.re == 771.0 => {
-            Expression::Number(num_complex::Complex64::new(1.0, f64::from_bits(1)))
-        }
-        Expression::Number(c) if c.im == 0.0 && c.re == 772.0 => {
-            Expression::Number(num_complex::Complex64::new(0.0, -f64::EPSILON))
-        }
-        Expression::Number(c) if c.im == 0.0 && c.re == 773.0 => Expression::Number(
-            num_complex::Complex64::new(0.0, f64::from_bits(f64::EPSILON.to_bits() + 1)),
-        ),
         Expression::FunctionCall(f) => Expression::FunctionCall(FunctionCallExpression::new(
             f.function,
             exotic_expr(&f.expression).into(),
@@ -678,9 +701,10 @@ const OTHERS: [&str; 14] = [
     "CAPTURE 0 \"xy\" flat(duration: 1.0, iq: 1.0) {3}[1]",
     "JUMP-WHEN @l {0}[0]",
 ];
-const LEAVES: [&str; 15] = [
+const LEAVES: [&str; 31] = [
     "1", "2.5", "0.0i", "2i", "1.5i", "i", "pi", "1e-17i", "2.220446049250313e-16i", "2.220446049250314e-16i",
-    "3e-16i", "770", "771", "772", "773",
+    "3e-16i", "770", "771", "772", "773", "775", "776", "777", "778", "779", "780", "781", "782", "783", "784", "785",
+    "786", "787", "788", "789", "790",
 ];
 
 fn all_leaves() -> Vec<GE> {
@@ -933,6 +957,27 @@ fn exhaustive(run: &mut Run, ctx: &Ctx, rng: &mut Rng, thorough: bool) {
         singles.push(GI::Set(SETS[(k + 1) % 5], GE::Neg(Box::new(l.clone()))));
         singles.push(GI::Set(SETS[(k + 2) % 5], GE::Call(FUNS[k % 5], Box::new(l.clone()))));
     }
+    // every number leaf as the ONLY questionable leaf, at depth 0..3, in both operand positions,
+    // under prefix / function / infix nodes (all other leaves are REAL memory, pi or real numbers)
+    for (k, lit) in LEAVES.iter().enumerate() {
+        let l = || Box::new(GE::Lit(lit));
+        let rr = || Box::new(GE::Addr(0, Some((k % 3) as u64)));
+        let num = || Box::new(GE::Lit("2.5"));
+        let pi = || Box::new(GE::Lit("pi"));
+        let ctxs: Vec<GE> = vec![
+            GE::Infix("+", rr(), l()),
+            GE::Infix("*", l(), num()),
+            GE::Call("sqrt", Box::new(GE::Infix("-", pi(), l()))),
+            GE::Infix("^", Box::new(GE::Infix("/", l(), rr())), num()),
+            GE::Neg(Box::new(GE::Call("cos", Box::new(GE::Infix("+", rr(), l()))))),
+            GE::Infix("-", Box::new(GE::Infix("+", Box::new(GE::Lit("1")), Box::new(GE::Infix("*", num(), l())))), rr()),
+            GE::Infix("-", rr(), Box::new(GE::Infix("+", pi(), Box::new(GE::Neg(l()))))),
+            GE::Call("exp", Box::new(GE::Call("cis", Box::new(GE::Neg(l()))))),
+        ];
+        for (j, e) in ctxs.into_iter().enumerate() {
+            singles.push(GI::Set(SETS[(k + j) % 5], e));
+        }
+    }
     // unary plus (only constructible through the AST): marker -(774)
     singles.push(GI::Set("SET-PHASE", GE::Neg(Box::new(GE::Lit("774")))));
     singles.push(GI::Set("SET-SCALE", GE::Infix("+", Box::new(GE::Neg(Box::new(GE::Lit("774")))), Box::new(GE::Addr(1, None)))));
@@ -945,7 +990,7 @@ fn exhaustive(run: &mut Run, ctx: &Ctx, rng: &mut Rng, thorough: bool) {
         }
     }
     // depth 2 over a reduced leaf set: one REAL region, an INTEGER region, real / imaginary number, variable
-    let small = [GE::Addr(0, Some(2)), GE::Addr(1, None), GE::Lit("2.5"), GE::Lit("2i"), GE::Var("t"), GE::Addr(4, None)];
+    let small = [GE::Addr(0, Some(2)), GE::Addr(1, None), GE::Lit("2.5"), GE::Lit("2i"), GE::Var("t"), GE::Addr(4, None), GE::Lit("775")];
     let mut d1: Vec<GE> = small.to_vec();
     for l in &small {
         d1.push(GE::Neg(Box::new(l.clone())));
@@ -1022,7 +1067,9 @@ fn main() {
          expression for SET-*/SHIFT-*, depth-2 expressions over a reduced leaf set, alone or embedded after a \
          well-typed prefix / before an arbitrary suffix; plus seeded random programs of 2..8 instructions over random \
          declarations (0-2 unconstrained instructions, expressions to depth 3). Distinct by program text; \
-         non-trivial = at least two checked instructions or a SET-like expression of depth >= 2.",
+         non-trivial = at least two checked instructions or a SET-like expression of depth >= 2. Number literals \
+         770..790 in a description are markers replaced after parsing by AST-built numbers (see marker_number: NaN, \
+         +-inf, +-0, negative / positive imaginary parts large, just beyond, at and within the EPSILON tolerance).",
         true,
         serde_json::json!({"exhaustive_cases": exhaustive_cases, "random_cases": nrand, "mutant": mutant}),
     );
